@@ -118,6 +118,8 @@ PROPS['C13'] = dict(
         ('ValidFacts', 'flags_string_is_union', "FlagsEnum, spelling 'p|q|...': the encoded integer is the bitwise union of the masks of the named labels, folded left to right; an unknown label refuses the whole spelling."),
         ('ValidFacts', 'flags_string_bits', 'FlagsEnum: bit n of the encoded integer is set exactly when the mask of one of the named labels has it - repeats and overlapping masks add nothing.'),
         ('ValidFacts', 'flags_string_order_and_repeats', 'FlagsEnum: two spellings that name the same labels (any order, any repetition) encode to the same integer.'),
+        ('ValidFacts', 'flags_dict_is_union', 'FlagsEnum, dict spelling {label: value, ...}: the union of the masks of the labels bound to a true value, private keys skipped; an unknown true label refuses the whole value.'),
+        ('ValidFacts', 'flags_dict_bits', 'FlagsEnum, dict spelling: bit n is set exactly when the mask of one of the labels bound to a true value has it.'),
         ('FlagsFacts', 'flagsenum_parse_labels', 'FlagsEnum on parse: every label of the table is reported, bound to (parsed integer & mask) == mask - multi-bit and overlapping masks included.'),
         ('FlagsFacts', 'flag_true_iff_all_bits', 'A label is reported True exactly when EVERY bit of its mask is set in the parsed integer.'),
         ('ValidFacts', 'explicit_escapes_any_nest', 'An Error field aborts parsing through ANY nest (unbounded depth) of Select / Optional-like Select / GreedyRange / Peek / Renamed.'),
